@@ -115,6 +115,55 @@ fn replay<const L: usize>(lines: &[String]) {
     em.w.flush().unwrap();
 }
 
+fn env_random(m: &HashMap<String, String>) {
+    use bourse_verif_harness::envdrive::*;
+    use bourse_de::{Env, MarketEnv};
+    use bourse_book::Market;
+    let seed: u64 = num(m, "seed", 1);
+    let count: u64 = num(m, "count", 100);
+    let shard: u64 = num(m, "shard", 0);
+    let nshards: u64 = num(m, "nshards", 1);
+    let only: i64 = num(m, "only", -1);
+    let kind: u64 = num(m, "kind", 0);          // 0 Env, 1 MarketEnv, 2 Market
+    let fam = EnvFamily { max_batch: num(m, "maxbatch", 6), small_step: num(m, "smallstep", 0u32) == 1, toggles: num(m, "toggles", 1u32) == 1,
+                          rounds: num(m, "rounds", 6), asym: num(m, "asym", 0u32) == 1, distinct_batch: num(m, "distinct", 0u32) == 1 };
+    let out = std::io::stdout();
+    let mut w = BufWriter::with_capacity(1 << 20, out.lock());
+    let mut st = EStats::new();
+    for i in 0..count {
+        if i % nshards != shard { continue; }
+        if only >= 0 && i as i64 != only { continue; }
+        let mut g = Sm(seed.wrapping_mul(0x9E3779B97F4A7C15) ^ (i + 1).wrapping_mul(0xC2B2AE3D27D4EB4F) ^ kind);
+        let rseed = g.next() >> (g.below(50) as u32);
+        let t0 = g.below(2000);
+        let step: u64 = if fam.small_step { 1 + g.below(3) } else { *g.pick(&[10u64, 100, 1000, 1_000_000]) };
+        let trading = !(fam.toggles && g.chance(1, 6));
+        let mut rng = new_rng(rseed);
+        macro_rules! go_env { ($l:expr) => {{ let ticks = [1 + g.below(5) as u32];
+            let mut t = TEnv::<$l>(Env::<$l>::new(t0, ticks[0], step, trading));
+            env_script(&mut w, &mut st, i, &mut t, &mut rng, &mut g, $l, rseed, t0, step, trading, &ticks, &fam); }} }
+        macro_rules! go_menv { ($a:expr, $l:expr) => {{ let ticks: [u32; $a] = core::array::from_fn(|_| 1 + g.below(5) as u32);
+            let mut t = TMEnv::<$a, $l>(MarketEnv::<$a, $l>::new(t0, ticks, step, trading));
+            env_script(&mut w, &mut st, i, &mut t, &mut rng, &mut g, $l, rseed, t0, step, trading, &ticks, &fam); }} }
+        macro_rules! go_market { ($a:expr, $l:expr) => {{ let ticks: [u32; $a] = core::array::from_fn(|_| 1 + g.below(5) as u32);
+            let mut t = TMarket::<$a, $l>(Market::<$a, $l>::new(t0, ticks, trading));
+            let len = 20 + g.below(60) as usize;
+            market_script(&mut w, &mut st, i, &mut t, &mut rng, &mut g, $l, rseed, t0, trading, &ticks, len); }} }
+        match (kind, i % 4) {
+            (0, 0) => go_env!(1), (0, 1) => go_env!(3), (0, 2) => go_env!(10), (0, _) => go_env!(24),
+            (1, 0) => go_menv!(1, 3), (1, 1) => go_menv!(2, 10), (1, 2) => go_menv!(3, 2), (1, _) => go_menv!(4, 4),
+            (_, 0) => go_market!(1, 3), (_, 1) => go_market!(2, 10), (_, 2) => go_market!(3, 2), (_, _) => go_market!(4, 4),
+        }
+    }
+    w.flush().unwrap();
+    let path = m.get("stats").cloned().unwrap_or_default();
+    if !path.is_empty() {
+        let samples: Vec<String> = st.samples.iter().map(|s| format!("{:?}", s)).collect();
+        std::fs::write(&path, format!("{{\"scripts\":{},\"ops\":{},\"steps\":{},\"panics\":{},\"batch_size_histogram\":{:?},\"overflow_batches\":{},\"nontrivial\":{},\"distinct_nontrivial\":{},\"env_op_kinds\":{:?},\"samples\":[{}],\"op_kinds\":[0,0,0,0,0,0,0,0,0,0,0,0,0],\"final_status\":[0,0,0,0,0],\"trades\":0,\"price_errors\":0}}",
+            st.scripts, st.ops, st.steps, st.panics, st.batch_hist, st.overflow_batches, st.nontrivial, st.nontrivial, st.kinds, samples.join(","))).unwrap();
+    }
+}
+
 fn main() {
     std::panic::set_hook(Box::new(|_| {}));
     let (cmd, m) = args();
@@ -140,6 +189,12 @@ fn main() {
             for f in &st.fails { println!("SNAPFAIL {}", f); }
             println!("SNAPSTATS {{\"points\":{},\"market_points\":{},\"files\":{},\"truncation_offsets\":{},\"continuation_ops\":{},\"status_seen\":{:?},\"trading_off_points\":{},\"samples\":{:?}}}",
                 st.points, st.market_points, st.files, st.offsets, st.cont_ops, st.status_seen, st.trading_off_points, st.samples);
+        }
+        "env-random" => env_random(&m),
+        "shuffle-stats" => {
+            let (fails, summary) = bourse_verif_harness::shufstats::run(num(&m, "small", 200000), num(&m, "large", 50000), num(&m, "seed", 1));
+            for f in &fails { println!("STATFAIL {}", f); }
+            println!("STATS {}", summary);
         }
         "replay" => {
             let f = std::fs::File::open(m.get("file").expect("--file")).unwrap();
